@@ -62,6 +62,13 @@ func (d *dialer) Dial() (transport.Pipe, error) {
 	return d.hs.Wait()
 }
 
+// Close abandons a negotiation that is in progress: Dial returns
+// ErrClosed, now and from now on.
+func (d *dialer) Close() error {
+	d.hs.Close()
+	return nil
+}
+
 func (d *dialer) SetOption(n string, v interface{}) error {
 	switch n {
 	case mangos.OptionMaxRecvSize:
